@@ -26,14 +26,19 @@ package c12
 
 import (
 	"bytes"
+	"context"
 	"encoding/json"
+	"errors"
 	"fmt"
 	"io"
+	"sync"
+	"sync/atomic"
 	"testing"
 	"time"
 
 	"pgregory.net/rapid"
 
+	"tunnox-core/internal/client/tunnel"
 	"tunnox-core/internal/utils/iocopy"
 	"tunnox-core/verif/vkit"
 )
@@ -70,6 +75,22 @@ type TCPCase struct {
 	// incoming stream ends (EOF or closed) after a transport error it closes its socket.
 	ReactiveA bool `json:"reactive_a,omitempty"`
 	ReactiveB bool `json:"reactive_b,omitempty"`
+	// ViaTunnel: the relay is not called directly but run by the client's tunnel.Tunnel
+	// (NewTunnel / Start -> runDataCopy), end A being its LocalConn and end B its TunnelRWC
+	// built with iocopy.NewReadWriteCloser as mapping.BaseMappingHandler does.
+	ViaTunnel bool `json:"via_tunnel,omitempty"`
+}
+
+// the client's tunnel manager (one per process) for ViaTunnel cases
+var tunnelSeq atomic.Int64
+var tunnelMgr struct {
+	once sync.Once
+	m    *tunnel.DefaultTunnelManager
+}
+
+func tunnelManager() *tunnel.DefaultTunnelManager {
+	tunnelMgr.once.Do(func() { tunnelMgr.m = tunnel.NewTunnelManager(context.Background(), tunnel.TunnelRoleListen) })
+	return tunnelMgr.m
 }
 
 // ---------------------------------------------------------------------------
@@ -199,8 +220,27 @@ func runTCP(c *TCPCase) (fail *failure, class string, nt bool, sig string) {
 	completions := 0
 	var cbSent, cbRecv int64
 	started := false
+	var tunStats *tunnel.TunnelStats
+	onClosedCalls := 0
 	start := func() {
 		started = true
+		if c.ViaTunnel {
+			rwc, _ := iocopy.NewReadWriteCloser(rB, rB, rB.Close)
+			var tun *tunnel.Tunnel
+			tun = tunnel.NewTunnel(&tunnel.TunnelConfig{
+				ID: fmt.Sprintf("c12-%d", tunnelSeq.Add(1)), MappingID: "c12", Role: tunnel.TunnelRoleListen, Protocol: "tcp",
+				LocalConn: rA, TunnelRWC: rwc, Manager: tunnelManager(),
+				OnClosed: func(tunnel.CloseReason, error) {
+					st := tun.GetStats()
+					h.do(func() { tunStats = st; onClosedCalls++; returned = true })
+				},
+			})
+			tunnelManager().RegisterTunnel(tun)
+			if err := tun.Start(); err != nil {
+				panic("c12: tunnel.Start: " + err.Error())
+			}
+			return
+		}
 		go func() {
 			r := iocopy.Bidirectional(rA, rB, &iocopy.Options{LogPrefix: "c12", OnComplete: func(s, r int64, err error) {
 				h.do(func() { completions++; cbSent, cbRecv = s, r })
@@ -555,6 +595,13 @@ func runTCP(c *TCPCase) (fail *failure, class string, nt bool, sig string) {
 	}
 	// Result counts = bytes the relay's destination ends accepted
 	accepted := [2]int64{rB.BytesWritten(), rA.BytesWritten()}
+	if c.ViaTunnel {
+		// the Tunnel keeps the Result to itself; what it publishes are the traffic statistics
+		if tunStats.BytesSent != accepted[0] || tunStats.BytesRecv != accepted[1] {
+			return failf("C12/tcp/tunnel-stats-mismatch", "Tunnel stats sent=%d recv=%d, the relay ends accepted %d / %d", tunStats.BytesSent, tunStats.BytesRecv, accepted[0], accepted[1]), "", false, ""
+		}
+		res = &iocopy.Result{BytesSent: accepted[0], BytesReceived: accepted[1]}
+	}
 	reported := [2]int64{res.BytesSent, res.BytesReceived}
 	for d := 0; d < 2; d++ {
 		if reported[d] != accepted[d] {
@@ -566,10 +613,17 @@ func runTCP(c *TCPCase) (fail *failure, class string, nt bool, sig string) {
 				"direction %s: Result reports %d bytes, the destination accepted %d (direction ended by %s)", dirName(d), reported[d], accepted[d], m.d[d].endKind), "", false, ""
 		}
 	}
-	if completions != 1 || cbSent != res.BytesSent || cbRecv != res.BytesReceived {
+	if !c.ViaTunnel && (completions != 1 || cbSent != res.BytesSent || cbRecv != res.BytesReceived) {
 		return failf("C12/tcp/oncomplete", "OnComplete ran %d times with (%d,%d); Result has (%d,%d)", completions, cbSent, cbRecv, res.BytesSent, res.BytesReceived), "", false, ""
 	}
 	errs := [2]error{res.SendError, res.ReceiveError}
+	if c.ViaTunnel {
+		ambiguousSkip := errors.New("n/a")
+		errs = [2]error{nil, nil}
+		if m.firstFault >= 0 {
+			errs[m.firstFault] = ambiguousSkip // not observable through the Tunnel
+		}
+	}
 	if m.clean && (errs[0] != nil || errs[1] != nil) {
 		return failf("C12/tcp/error-reported-on-clean-run", "no transport error was injected, Result has SendError=%v ReceiveError=%v", errs[0], errs[1]), "", false, ""
 	}
@@ -614,6 +668,10 @@ func runTCP(c *TCPCase) (fail *failure, class string, nt bool, sig string) {
 	}
 	if concurrent {
 		vkit.Class("tcp-feat:both-directions-at-once")
+	}
+	if c.ViaTunnel {
+		vkit.Class("tcp-feat:run-by-client-tunnel.Tunnel")
+		class = "tunnel+" + class
 	}
 	if preSteps > 0 {
 		vkit.Class("tcp-feat:data/EOF-buffered-before-relay-starts")
@@ -749,6 +807,7 @@ func genTCP(t *rapid.T) *TCPCase {
 	c.EOFWithDataB = rapid.IntRange(0, 1).Draw(t, "eofWithDataB") == 0 // the tunnel end (QUIC streams do this)
 	c.ErrKindA = rapid.SampledFrom(errKinds).Draw(t, "errKindA")
 	c.ErrKindB = rapid.SampledFrom(errKinds).Draw(t, "errKindB")
+	c.ViaTunnel = rapid.IntRange(0, 3).Draw(t, "viaTunnel") == 0
 	c.ReactiveA = rapid.Bool().Draw(t, "reactiveA")
 	c.ReactiveB = rapid.Bool().Draw(t, "reactiveB")
 	if rapid.IntRange(0, 2).Draw(t, "preStart") == 0 {
@@ -817,6 +876,12 @@ func TestTCPScripted(t *testing.T) {
 			c.NoCWB, c.ReadCapA, c.ReadCapB = noCW, cap, cap
 			c.Steps = []TCPStep{{Op: "sendA", N: 700}, {Op: "hcA"}, {Op: "sendB", N: 40000}, {Op: "sendB", N: 1}, {Op: "hcB"}}
 			check(t, Case{TCP: &c})
+			// through tunnel.Tunnel: the tunnel side finishes first, the local application waits
+			// for end-of-stream, then sends its last bytes and closes
+			ct := base()
+			ct.ViaTunnel, ct.NoCWB, ct.ReadCapA, ct.ReadCapB = true, noCW, cap, cap
+			ct.Steps = []TCPStep{{Op: "sendA", N: 300}, {Op: "sendB", N: 30000}, {Op: "hcB"}, {Op: "sendA", N: 2000}, {Op: "closeA"}}
+			check(t, Case{TCP: &ct})
 			c2 := base()
 			c2.NoCWA, c2.ReadCapA, c2.ReadCapB = noCW, cap, cap
 			c2.Steps = []TCPStep{{Op: "sendBoth", N: 100000, M: 70000}, {Op: "hcB"}, {Op: "sendA", N: 5000}, {Op: "closeA"}}
